@@ -137,7 +137,9 @@ CLAIMS = {
         text="Decides ONE clause only: the vector returned by the solver used by fitting (nnls_normal_block3) is component-wise non-negative "
              "exactly, by sign provenance of every store into it (including through walk_descents/evaluate_descent) - plus memory safety of the "
              "factor-update path in one respect: no cached factor array is read after a call that may move it, no field through a released "
-             "object; the constrained set a worker hands back is one job's (its count is reset inside the job loop). KKT optimality, agreement "
+             "object; the constrained set a worker hands back is one job's (its count is reset inside the job loop); the solver declares convergence "
+             "only with both change sets empty and the current point an exact solve over the free set (a necessary condition of the KKT clause: "
+             "without it 5% of random systems came back non-optimal). KKT optimality as such, agreement "
              "with the unique minimiser, termination and the three other exported solvers are numerical and are not decided.",
         note=TRUST + "NaN data out of scope (a NaN trial value is not clamped).",
         technique="sign-provenance classification of stores into the solution vector; invalidation typestate for cached CHOLMOD arrays"),
@@ -146,7 +148,8 @@ CLAIMS = {
              "canonical product loop with a wide enough result; convolve updates exactly the convolved dimension's shape to order+n-1, "
              "nknots*n (counter in a perfect loop nest), nknots'-order'-1, recomputes strides, touches no other dimension, and cannot leave a "
              "modified unprotected table; the transfer matrix is filled for every (new, old) pair and applied to every slice by perfect "
-             "counting-loop nests with the blossom arguments in their roles; an out-of-range dimension and an empty kernel are refused before use. The convolution integral identity itself is numerical and is not decided.",
+             "counting-loop nests with the blossom arguments in their roles; the prefactor is q!(k-1)!/(k+q-1)! with no order-dependent sign; the "
+             "kernels contain no absolute tolerance (unit equivariance); an out-of-range dimension and an empty kernel are refused before use. The convolution integral identity itself is numerical and is not decided.",
         note=TRUST + "Admitted range: order <= 5, kernels of <= 6 knots ((k+q-1)! <= 10!).",
         technique="unsigned-wrap/totality rule, symbolic post-state (affine forms) of the shape members"),
     "C19": dict(
